@@ -22,7 +22,7 @@ GRID = 0.125
 
 def cases(tier, seed):
     out = []
-    n = 80 if tier == "quick" else 800
+    n = 80 if tier == "quick" else 20000
     for i in range(n):
         out.append({"name": "poll.model/%d" % i, "kind": "gen", "idx": i})
     out.append({"name": "poll.cancel-table", "kind": "ctable"})
